@@ -18,7 +18,9 @@ from .tlcrun import run_tlc, tla_string_to_json, MachineryError
 from .common import time_limit, Outcome, shard_validate, seed
 
 # (scale in Angstrom per lattice unit, atol): atol/scale <= 1/32 lattice units (margin proven in MC_Find's ASSUMEs)
-TOL_CLASSES = [(1.6, 0.05), (3.2, 0.1), (1.0, 0.02), (2.0, 0.05), (0.4, 0.1)]   # the last one (tol = 1/4 unit) only for P26dome, see MC_Find.Dome
+# the last two (tol = 1/4 unit) only for P26dome, see MC_Find.Dome; in the very last the lifted atom is 0.2 A off, which is
+# less than sqrt(tol) (a deviation compared with tol where tol^2 is meant still accepts it)
+TOL_CLASSES = [(1.6, 0.05), (3.2, 0.1), (1.0, 0.02), (2.0, 0.05), (0.4, 0.1), (0.2, 0.05)]
 NORMAL_CLASSES = 4
 
 C01_CLAUSES = {"match-shape", "distinct-atoms", "elements-in-pattern-order", "position-is-stored-plus-lattice-vector",
@@ -168,7 +170,7 @@ def build(crystal, v):
     """render crystal and pattern; returns (structure Atoms, pattern Atoms, info needed to project)"""
     from mofun import Atoms
     if crystal.get("patname") == "P26dome":
-        v["cls"] = 4
+        v["cls"] = 4 if v["rseed"] % 2 == 0 else 5
     s, atol = TOL_CLASSES[v["cls"]]
     Q = np.eye(3) if v["Q"] is None else katoms.random_rotation(np.random.default_rng(v["Q"]))
     R = katoms.Rendering("r", s, Q)
